@@ -855,6 +855,29 @@ def _nodb(rec, viol, spec, names, bv, ref, gref, href, gscale, hscale, g_rtol, r
             viol(f'{label}-gradient-differs', f'{np.asarray(r.gradient).tolist()} vs {gref[:, row].tolist()}', row=row)
         if not close(r.hessian, href[:, :, row], H_RTOL, H_RTOL * hscale):
             viol(f'{label}-hessian-differs', f'{np.asarray(r.hessian).tolist()}', row=row)
+        outer_row = np.outer(gref[:, row], gref[:, row])
+        if not close(r.bhhh, outer_row, 1e-6, 1e-8 * gscale * gscale):
+            viol(f'{label}-bhhh-differs-from-outer-product-of-gradient', f'{np.asarray(r.bhhh).tolist()} vs {outer_row.tolist()}', row=row)
+        # every flag combination: what is requested is returned (the same numbers), what is not requested is not
+        for hh, bb in ((True, False), (False, True), (False, False)):
+            try:
+                e1, _ = build.build(s0)
+                r1 = e1.get_value_and_derivatives(prepare_ids=True, aggregation=agg, gradient=True, hessian=hh, bhhh=bb)
+            except BaseException as e:
+                viol(f'{label}-raises-{type(e).__name__}', f'hessian={hh} bhhh={bb}: {e}', row=row)
+                continue
+            rec.ev()
+            rec.c('nodatabase_flag_combinations_compared')
+            if (r1.hessian is None) == hh or (r1.bhhh is None) == bb:
+                viol(f'{label}-flags-not-honoured', f'hessian={hh} bhhh={bb}: hessian returned={r1.hessian is not None} '
+                     f'bhhh returned={r1.bhhh is not None}', row=row)
+                continue
+            if not close(r1.gradient, gref[:, row], g_rtol, g_rtol * gscale * 1e-2):
+                viol(f'{label}-gradient-differs', f'hessian={hh} bhhh={bb}: {np.asarray(r1.gradient).tolist()} vs {gref[:, row].tolist()}', row=row)
+            if hh and not close(r1.hessian, href[:, :, row], H_RTOL, H_RTOL * hscale):
+                viol(f'{label}-hessian-differs', f'hessian={hh} bhhh={bb}', row=row)
+            if bb and not close(r1.bhhh, outer_row, 1e-6, 1e-8 * gscale * gscale):
+                viol(f'{label}-bhhh-differs-from-outer-product-of-gradient', f'hessian={hh} bhhh={bb}: {np.asarray(r1.bhhh).tolist()} vs {outer_row.tolist()}', row=row)
 
 
 def _nodb_directed(case, rec):
@@ -890,6 +913,9 @@ def _nodb_directed(case, rec):
             continue
         if not close(r.function, fref, 1e-9, 1e-12) or not close(r.gradient, gref, 1e-9, 1e-12):
             rec.violation(f'C02/{label}-gradient-differs', f'{r.function},{np.asarray(r.gradient).tolist()} vs {fref},{gref}', {'directed': k})
+        if not close(r.bhhh, np.outer(gref, gref), 1e-9, 1e-12):
+            rec.violation(f'C02/{label}-bhhh-differs-from-outer-product-of-gradient', f'{np.asarray(r.bhhh).tolist()} vs {np.outer(gref, gref).tolist()}',
+                          {'directed': k})
     return rec.out()
 
 
